@@ -17,10 +17,13 @@ import impl
 import c12_gen as g
 from common import cstr, clist, cfloat, copt, cpair, cz, cnat
 
-THEOREMS = []
-THEOREMS_TODO = ['C12_expand_shorthand', 'C12_importance_of_cell',
-            'C12_skipped_iff_zero', 'C12_converted_iff_nonzero',
-            'C12_data_card_max_zero', 'C12_like_but_imp_refuted']
+THEOREMS = ['C12_expand_shorthand', 'C12_interpolates_evenly_spaced',
+            'C12_importance_cards_max', 'C12_importance_cards_uneven_refused',
+            'C12_keywords_importance', 'C12_importance_of_cell',
+            'C12_importance_missing_refused', 'C12_skipped_iff_zero',
+            'C12_converted_iff_nonzero', 'C12_data_card_max_zero',
+            'C12_cell_card_max_zero', 'C12_like_but_imp_refuted',
+            'C12_nonu_refuted']
 TRUSTED = [
     'hand-written model coq/C12/Model.v + Text.v (modelled, tied by '
     'execution only)',
